@@ -352,10 +352,10 @@ func init() {
 func init() {
 	props["C04"] = &propDef{
 		ID:       "C04",
-		Anchored: []string{").Memset", ").Zero", "memsetIter", "zeroIter", "copyDense", "CopyIter", "tensor.Copy", ").Clone", ").Materialize", ").CopyTo", "RequiresIterator", "IsMaterializable", "sliceInto", ").Slice"},
+		Anchored: []string{").Memset", ").Zero", "memsetIter", "zeroIter", "copyDense", "CopyIter", "tensor.Copy", ").Clone", ").Materialize", ").CopyTo", "RequiresIterator", "IsMaterializable", "sliceInto", ").Slice", "native.", "FromMat64", "ToMat64", "convFromFloat64s"},
 		Bounds: map[string]interface{}{"parents": "(5), (3,4), (4,3), (2,3,2) quick; + (4,4), (2,2,3), (3,2,2,2) thorough; row- and column-major", "views": "one sliced axis with (start,end,step) enumerated by the solver over all valid triples with step<=3 (outside the open C02 findings), lazy transpose, slice of a lazy transpose",
 			"writes": "Memset, Zero, SetAt sweep, Copy into the view (source layouts C,T,S), unsafe Neg, unsafe Add tensor/scalar", "data": "all parent cells (sentinels), written values and source operands symbolic",
-			"copies": "Clone, Materialize, Copy, CopyTo over layouts C,F,T,S,SS,M (+ lazily transposed), element sizes 1-16 and string", "not_covered": "ToMat64/FromMat64 (needs a gonum/mat model) and package native conversions (separate package): listed as not covered"},
+			"copies": "Clone, Materialize, Copy, CopyTo over layouts C,F,T,S,SS,M (+ lazily transposed), element sizes 1-16 and string", "native": "package native Vector/Matrix/Tensor3/Select x {U8,I32,F64,C128,Str} (all 16 types thorough) x layouts C,F,T,S,SS(,M) on shapes (3),(2,3),(3,1),(2,3,2),(2,2,3) (+7 thorough incl. rank 4 and scalar)", "frommat64": "FromMat64 x 12 real numeric target types x safe/unsafe on (2,2) (+ (1,3),(3,2) thorough), matrix data symbolic float64; float->integer conversions outside the target range are implementation-defined in Go and assumed away, NaN/Inf -> 0 as convFromFloat64s documents", "not_covered": "the reflect-based native.Vector/Matrix/Tensor3 of native/generic.go; complex targets of FromMat64"},
 		Instances: func(tier string, seed int64) []Instance {
 			var out []Instance
 			type par struct {
@@ -464,6 +464,19 @@ func init() {
 					}
 				}
 			}
+			// conversion from a gonum matrix: every real numeric target type, safe and unsafe
+			for _, dt := range []string{"float64", "float32", "int", "int8", "int16", "int32", "int64", "uint", "uint8", "uint16", "uint32", "uint64"} {
+				shs := [][]int{{2, 2}}
+				if tier == "thorough" {
+					shs = append(shs, []int{1, 3}, []int{3, 2})
+				}
+				for _, sh := range shs {
+					for _, mode := range []string{"", "unsafe"} {
+						out = append(out, mkInst("vhC04FromMat", map[string]interface{}{"dtype": dt, "shape": sh, "mode": mode}, "dtype", "shape", "mode"))
+					}
+				}
+			}
+			out = append(out, nativeInstances(tier, "C04")...)
 			return out
 		},
 	}
@@ -1703,10 +1716,11 @@ func init() {
 	props["C17"] = &propDef{
 		ID:          "C17",
 		KernelLevel: true,
-		Anchored:    []string{"execution.", "storage.", "MaskedEqual", "MaskedGreater", "MaskedLess", "array).Get", "array).Set"},
+		Anchored:    []string{"execution.", "storage.", "MaskedEqual", "MaskedGreater", "MaskedLess", "array).Get", "array).Set", "native."},
 		Bounds: map[string]interface{}{"kernel_level": "every function of internal/execution/generic_*.go with a slice parameter whose name parses into (op, variant, dtype): symbolic slices of length 3 (4 with iterators: a contiguous and a lazily-transposed (2,2) access pattern), symbolic scalars, real FlatIterators; every cell of every argument compared with the type-generic table entry",
 			"dispatch_level": "public-API harnesses of C06/C11/C12/C08/C15 instantiated at EVERY element type the operation accepts, incl. iterator and incr variants (catches a reflect.Type case wired to the wrong kernel)",
 			"cross_type": "int8->16/32/64, int16->32/64, int32->64, uint likewise, float32->float64: + - x (and / % at 8->16 quick, all pairs with 60 s in thorough) agree after conversion when the wide result is representable; comparisons agree unconditionally",
+			"native_conversions": "package native Vector*/Matrix*/Tensor3*/Select* for all 16 element types on the contiguous layout (thorough: + F,T,S), shapes (3),(2,3),(3,1),(2,3,2),(2,2,3), every axis (+ rank 4, scalar, 1-dims, rank mismatches in thorough); elements symbolic",
 			"not_covered": "string kernels (ordering of symbolic strings is not encoded), reduce/map helper kernels taking function values (exercised through C08/C12), masked arg kernels (C15/C08)"},
 		Instances: func(tier string, seed int64) []Instance {
 			var out []Instance
@@ -1794,6 +1808,7 @@ func init() {
 				}
 				out = append(out, mkInst("vhC17Cross", map[string]interface{}{"pair": "f32-f64", "op": op}, "pair", "op"))
 			}
+			out = append(out, nativeInstances(tier, "C17")...)
 			return out
 		},
 	}
@@ -2243,4 +2258,45 @@ func c18Shapes(op string) (sa, sb []int) {
 		return []int{1, 3}, []int{1, 3}
 	}
 	return []int{2, 3}, []int{2, 3}
+}
+
+// nativeInstances: the conversions of package native (harness/native__h_native.go). C04 asks for "every source layout" on a
+// few element sizes; C17 asks for every element type on the contiguous layout plus the layouts that a conversion accepts.
+func nativeInstances(tier string, prop string) []Instance {
+	var out []Instance
+	all := []string{"B", "I", "I8", "I16", "I32", "I64", "U", "U8", "U16", "U32", "U64", "F32", "F64", "C64", "C128", "Str"}
+	type cs struct {
+		conv  string
+		shape []int
+		axis  int
+	}
+	cases := []cs{{"vector", []int{3}, 0}, {"matrix", []int{2, 3}, 0}, {"matrix", []int{3, 1}, 0}, {"tensor3", []int{2, 3, 2}, 0}, {"tensor3", []int{2, 2, 3}, 0},
+		{"select", []int{3}, 0}, {"select", []int{2, 3}, 0}, {"select", []int{2, 3}, 1}, {"select", []int{2, 3, 2}, 0}, {"select", []int{2, 3, 2}, 1}, {"select", []int{2, 2, 3}, 2}}
+	if tier == "thorough" {
+		cases = append(cases, cs{"vector", []int{1}, 0}, cs{"matrix", []int{1, 4}, 0}, cs{"matrix", []int{3, 3}, 0}, cs{"tensor3", []int{3, 1, 2}, 0}, cs{"tensor3", []int{1, 3, 4}, 0},
+			cs{"select", []int{}, 0}, cs{"select", []int{4, 2}, 1}, cs{"select", []int{2, 2, 2, 2}, 2}, cs{"select", []int{2, 2, 2, 2}, 1}, cs{"vector", []int{2, 3}, 0}, cs{"matrix", []int{2, 3, 2}, 0}, cs{"select", []int{2, 3}, 2})
+	}
+	dts := all
+	layouts := []string{"C"}
+	if prop == "C04" {
+		dts = []string{"U8", "I32", "F64", "C128", "Str"}
+		layouts = []string{"C", "F", "T", "S", "SS"}
+		if tier == "thorough" {
+			dts = all
+			layouts = append(layouts, "M")
+		}
+	} else if tier == "thorough" {
+		layouts = []string{"C", "F", "T", "S"}
+	}
+	for _, dt := range dts {
+		for _, c := range cases {
+			for _, la := range layouts {
+				if len(c.shape) == 0 && la != "C" {
+					continue
+				}
+				out = append(out, mkInst("native.VhNative"+dt, map[string]interface{}{"conv": c.conv, "shape": c.shape, "axis": c.axis, "base": la}, "conv", "shape", "axis", "base"))
+			}
+		}
+	}
+	return out
 }
